@@ -330,6 +330,20 @@ pub fn run(ctx: &Ctx) -> (Stats, Report) {
             break;
         }
     }
+    // boundary dates x times of day at 2^k us / ms / s and multiples of 2^32 us
+    let btods = pools::binary_times_of_day();
+    let bdates = pools::date_pool(seed, 60);
+    for (k, &n) in bdates.iter().enumerate() {
+        for &t in &btods {
+            st.evaluations += 1;
+            st.fps.push(hash_ints(0x7c, &[n, t]));
+            st.class("binary-time-of-day");
+            if let Err(m) = check_pair(n as i32, t as i64) {
+                st.fail(k as u64, Case::new(P, "pair", vec![n, t], vec![]), m);
+                break;
+            }
+        }
+    }
     let bdays = pools::binary_boundary_days(ctx.thorough);
     let bref = &bdays;
     let s = par_sweep(bdays.len() as u64 * 86_400, 4096, |range, st| {
